@@ -391,6 +391,46 @@ func genC12(o *hx.Out, tier string) {
 		}
 		o.Add("serial open-during-close", verdict, "expect", "ok", fmt.Sprintf("serial open-during-close rep=%d", rep))
 	}
+	// ---- Close() while the node's own heartbeat routine is submitting a write ----
+	for rep := 0; rep < reps*5; rep++ {
+		runtime.GOMAXPROCS([]int{1, 2, 16}[rep%3])
+		pipes := []*scn.Pipe{scn.NewPipe("hb")}
+		node := newNode(pipes, func(c *gomavlib.NodeConf) {
+			c.Dialect = d
+			c.HeartbeatDisable = false
+			c.HeartbeatPeriod = time.Duration(100+rep*37%400) * time.Microsecond
+		})
+		col := scn.NewCollector(node, 0, rep%2 == 1)
+		time.Sleep(time.Duration(1+rep%5) * time.Millisecond)
+		verdict := closeReport(node, col, pipes, nil)
+		o.Add("custom close with a busy heartbeat routine", verdict, "expect", "ok", fmt.Sprintf("busy-heartbeat rep=%d", rep))
+		if verdict != "ok" {
+			break // a hung node keeps its goroutines: later repetitions would only repeat the report
+		}
+	}
+	// ---- a transport whose blocked Read is released late: Close() must wait for the reader too ----
+	for rep := 0; rep < reps; rep++ {
+		runtime.GOMAXPROCS([]int{1, 2, 16}[rep%3])
+		pipes := []*scn.Pipe{scn.NewPipe("slow0"), scn.NewPipe("slow1")}
+		for _, p := range pipes {
+			p.SlowClose(300 * time.Millisecond)
+		}
+		node := newNode(pipes, func(c *gomavlib.NodeConf) { c.Dialect = d })
+		col := scn.NewCollector(node, 0, false)
+		col.Wait(func() bool { return col.Count() >= 2 })
+		verdict := "ok"
+		if !scn.CloseWithin(node, 8*time.Second) {
+			verdict = "CLOSE-DID-NOT-RETURN"
+		} else if l := scn.LeaksAfter(40 * time.Millisecond); l != "" {
+			verdict = "GOROUTINE-STILL-RUNNING-AFTER-CLOSE-RETURNED " + l
+		}
+		select {
+		case <-col.Done:
+		case <-time.After(3 * time.Second):
+		}
+		scn.Leaks()
+		o.Add("custom close with a late-returning Read", verdict, "expect", "ok", fmt.Sprintf("slow-read rep=%d", rep))
+	}
 	// ---- Close() while one channel's transport is stuck and its queue has overflowed ----
 	for rep := 0; rep < reps; rep++ {
 		runtime.GOMAXPROCS([]int{1, 2, 16}[rep%3])
